@@ -28,7 +28,11 @@ class MetaHeader:
 		json_begin = header_begin + len(MetaHeader.Tag) + 1
 		line_break = content.find('\n', json_begin)
 		json_end = content.rfind('}', json_begin, line_break) + 1
-		return cls.from_json(content[json_begin:json_end])
+		try:
+			return cls.from_json(content[json_begin:json_end])
+		except (ValueError, KeyError):
+			# XXX 書き込みが中断された出力ファイルなど、メタヘッダーが壊れている場合は存在しない扱い(=再生成の対象)
+			return None
 
 	@classmethod
 	def from_json(cls, json_str: str) -> Self:
